@@ -196,6 +196,19 @@ func (e *Enc) runBody(fn *ssa.Function, con *FuncContract, ur *UnitResult) {
 		q := &Query{Name: e.ctx + "#cover:return", Kind: "cover", NAssume: len(e.assumes), Goal: out.reach, Cover: true}
 		e.queries = append(e.queries, q)
 	}
+	if con.opts["constructs-lazily"] == "true" {
+		// one obligation that is always generated: no reachable call in the constructor's own body evaluates anything
+		bad := tb.False()
+		for _, r := range e.lazyReach {
+			bad = tb.Or(bad, r)
+		}
+		top := State{reach: tb.True(), heap: map[string]*Term{}}
+		q := e.oblige("assert", "constructs-lazily", &top, tb.Not(bad), token.NoPos, e.inputVals()...)
+		q.Text = "building the pipeline evaluates nothing: no call of a function value, of an evaluating function or of unknown effect outside the function literals"
+		if len(e.lazyWhat) > 0 {
+			q.Text += "; offending calls: " + strings.Join(e.lazyWhat, " | ")
+		}
+	}
 	env := e.envForCall(fn, args, res, &out, &fr.entry)
 	for k, cl := range con.ensures {
 		t, err := env.evalBool(cl.expr)
